@@ -30,6 +30,7 @@ type HookEvent struct {
 	N       int64  `json:"n,omitempty"`
 	Bytes   []byte `json:"-"`
 	Ptr     *mqtt.Client `json:"-"`
+	Remote  string       `json:"-"`
 }
 
 // ACLFunc is the test permission relation (nil = allow everything).
@@ -366,7 +367,7 @@ func (r *recorder) OnPublishDropped(cl *mqtt.Client, pk packets.Packet) {
 	r.b.record(HookEvent{Hook: "OnPublishDropped", Client: cl.ID, Topic: pk.TopicName, Payload: string(pk.Payload), PID: pk.PacketID})
 }
 func (r *recorder) OnPacketSent(cl *mqtt.Client, pk packets.Packet, b []byte) {
-	e := HookEvent{Hook: "OnPacketSent", Client: cl.ID, Topic: pk.TopicName, PID: pk.PacketID, Type: pk.FixedHeader.Type, N: int64(len(b)), Ptr: cl}
+	e := HookEvent{Hook: "OnPacketSent", Client: cl.ID, Topic: pk.TopicName, PID: pk.PacketID, Type: pk.FixedHeader.Type, N: int64(len(b)), Ptr: cl, Remote: cl.Net.Remote}
 	if pk.FixedHeader.Type == packets.Publish {
 		e.Payload = string(pk.Payload)
 	}
